@@ -4,7 +4,8 @@ import json, glob, re
 rows = []
 for f in sorted(glob.glob('/verif/seeded/*/meta.json')):
     m = json.load(open(f))
-    rnd = '2' if '/tmp/wt2-' in m.get('confirmed', '') else '1'
+    mm = re.search(r'/tmp/wt(\d)-', m.get('confirmed', ''))
+    rnd = mm.group(1) if mm else '1'
     rows.append((m['property'], rnd, m['slug'], m['needs_to_manifest'], m['result']))
 rows.sort()
 out = ['| property | round | change | needs to manifest | result |', '|----------|-------|--------|-------------------|--------|']
@@ -12,8 +13,8 @@ for r in rows:
     out.append('| %s | %s | %s | %s | %s |' % tuple(x.replace('|', '/') for x in r))
 missed = sum(1 for r in rows if r[4].startswith('missed'))
 out.append('')
-out.append('%d changes (%d in round 1, %d in round 2); %d were caught by the checks as they stood, %d were missed at first and led to a strengthening listed in the result column. All %d are now caught by the *quick* tier.' % (
-    len(rows), sum(1 for r in rows if r[1] == '1'), sum(1 for r in rows if r[1] == '2'), len(rows) - missed, missed, len(rows)))
+out.append('%d changes (%d in round 1, %d in later rounds); %d were caught by the checks as they stood, %d were missed at first and led to a strengthening listed in the result column. All %d are now caught by the *quick* tier.' % (
+    len(rows), sum(1 for r in rows if r[1] == '1'), sum(1 for r in rows if r[1] != '1'), len(rows) - missed, missed, len(rows)))
 p = '/verif/DESIGN.md'
 s = open(p).read()
 a, b = '<!-- SEED-TABLE-BEGIN -->', '<!-- SEED-TABLE-END -->'
